@@ -88,6 +88,7 @@ def create_stub_files(
     out_path: Path,
 ) -> None:
     naming_convention = stubs_generator.naming_convention
+    created_module_paths: set[str] = set()
     # A "package module" is a module which is created though the reexported classes and functions in the __init__.py
     for module_dir, module_name, module_text, is_package_module in stubs_data:
         if is_package_module:
@@ -111,7 +112,11 @@ def create_stub_files(
         with file_path.open("w", encoding="utf-8") as f:
             f.write(module_text)
 
-    created_module_paths: set[str] = set()
+        # The stub of a module must not be overwritten by the placeholder of something that is taken for a class of
+        # another package although it is declared in this module (e.g. a NewType), it is appended instead
+        if file_path.stem == file_path.parent.name:
+            created_module_paths.add(file_path.parent.relative_to(out_path).as_posix())
+
     classes_outside_package = list(stubs_generator.classes_outside_package)
     classes_outside_package.sort()
     for class_ in classes_outside_package:
